@@ -985,6 +985,10 @@ class Translator:
                     return self.wrap(cx, self.cblock(rest, cx.same()))
                 fail(s, 'unpacking with several non-proof components')
             v = self.cexpr(val, cx)
+            if v.ty == 'pair_pat' and len(tg.elts) == 2 and all(isinstance(t_, ast.Name) for t_ in tg.elts):
+                cx.env[tg.elts[0].id] = V('pat', v.code[0])
+                cx.env[tg.elts[1].id] = V('pat', v.code[1])
+                return self.wrap(cx, self.cblock(rest, cx.same()))
             # a, b = res  where res : option (x, proof)
             if isinstance(v.ty, tuple) and v.ty[0] == 'opt':
                 full = None
@@ -1116,6 +1120,13 @@ class Translator:
             th = branch(s.body, a, then_term)
             # Implies.extract raises (assert) when the pattern is not an implication: the else branch is unreachable
             return self.wrap(cx, f'match {v.code} with\n| KImp {n0} {n1} =>\n{th}\n| _ => Err\nend')
+        # the truth value of the pair returned by Implies.extract (a 2-tuple) is statically True
+        core_t, negated = t, False
+        while isinstance(core_t, ast.UnaryOp) and isinstance(core_t.op, ast.Not):
+            core_t, negated = core_t.operand, not negated
+        if isinstance(core_t, ast.Name) and core_t.id in cx.env and cx.env[core_t.id].ty == 'pair_pat':
+            taken = s.orelse if negated else s.body
+            return self.cblock(list(taken) + (rest if not self.terminates(taken, cx) else []), cx)
         if isinstance(t, ast.UnaryOp) and isinstance(t.op, ast.Not):
             probe = cx.same()
             probe.pending = []
@@ -1584,7 +1595,58 @@ class Translator:
                 elif isinstance(val, ast.AST):
                     walk_lists(val, fn)
 
+        def match_to_if(stmts):
+            """`match x: case C1(): A  case C2(): B  case _: D`  ==  `if isinstance(x, C1): A elif isinstance(x, C2): B else: D`"""
+            out = []
+            for st in stmts:
+                if isinstance(st, ast.Match) and isinstance(st.subject, ast.Name):
+                    arms, default = [], None
+                    ok = True
+                    for k, c in enumerate(st.cases):
+                        pt = c.pattern
+                        if c.guard is not None:
+                            ok = False
+                        elif isinstance(pt, ast.MatchClass) and isinstance(pt.cls, ast.Name) and not pt.patterns and not pt.kwd_patterns:
+                            arms.append((pt.cls.id, c.body))
+                        elif isinstance(pt, ast.MatchAs) and pt.pattern is None and pt.name is None and k == len(st.cases) - 1:
+                            default = c.body
+                        else:
+                            ok = False
+                    if not ok or not arms:
+                        fail(st, 'match statement: only `case Cls():` arms and a final `case _:` are supported')
+                    node = list(default) if default is not None else []
+                    for cls_, body_ in reversed(arms):
+                        test = ast.Call(func=ast.Name(id='isinstance', ctx=ast.Load()),
+                                        args=[ast.Name(id=st.subject.id, ctx=ast.Load()), ast.Name(id=cls_, ctx=ast.Load())], keywords=[])
+                        n_ = ast.If(test=test, body=body_, orelse=node)
+                        ast.copy_location(n_, st)
+                        ast.fix_missing_locations(n_)
+                        node = [n_]
+                    out += node
+                else:
+                    out.append(st)
+            return out
+
+        def extract_to_walrus(stmts):
+            """`x = Implies.extract(p)` ; REST   ==   `if x := Implies.extract(p): REST else: raise`
+            (extract asserts that p is an implication, so the statement raises exactly when the walrus test would fail)"""
+            for k, st in enumerate(stmts):
+                if isinstance(st, ast.Assign) and len(st.targets) == 1 and isinstance(st.targets[0], ast.Name) \
+                        and isinstance(st.value, ast.Call) and isinstance(st.value.func, ast.Attribute) \
+                        and isinstance(st.value.func.value, ast.Name) and st.value.func.value.id == 'Implies' \
+                        and st.value.func.attr == 'extract' and len(st.value.args) == 1 and isinstance(st.value.args[0], ast.Name):
+                    w = ast.NamedExpr(target=ast.Name(id=st.targets[0].id, ctx=ast.Store()), value=st.value)
+                    raise_ = ast.Raise(exc=ast.Call(func=ast.Name(id='AssertionError', ctx=ast.Load()), args=[], keywords=[]), cause=None)
+                    n_ = ast.If(test=w, body=extract_to_walrus(stmts[k + 1:]), orelse=[raise_])
+                    for x in (n_, raise_):
+                        ast.copy_location(x, st)
+                        ast.fix_missing_locations(x)
+                    return stmts[:k] + [n_]
+            return stmts
+
         f = copy.deepcopy(f)
+        walk_lists(f, match_to_if)
+        walk_lists(f, extract_to_walrus)
         walk_lists(f, inline_helpers)
         walk_lists(f, dictcomp)
         walk_lists(f, lambda st: while_index(st, f))
